@@ -1208,6 +1208,24 @@ def run(tier):
     chk.guard(rule_r9, chk, prog)
     chk.guard(rule_r11, chk, prog)
     chk.guard(rule_r12, chk, prog)
+    from .. import adoptres
+    chk.guard(adoptres.report, chk, prog, 'C05.R13',
+              'ddmin continues from the input its last pass has written: the '
+              'result of _apply_mutator replaces the current input on every '
+              'path',
+              'the next accepted candidate is derived from a superseded input and silently undoes what the file holds: the written contents do not form a chain')
+    from .. import memo as _memo
+
+    def _memo_rule(chk, prog):
+        chk.rule('C05.R14', 'memoised functions that name or render the candidate: the cached value depends only on the cache key')
+        _memo.report(chk, prog, 'C05.R14', 'memoised functions on the candidate path',
+                     lambda m, q: m.name in ('tmpfiles', 'nodeio', 'checker', 'strategy_ddmin', 'strategy_hierarchical'),
+                     'forked workers inherit the table: two workers check under the same file name, a verdict is attributed to a candidate the command never saw and that candidate is written')
+
+    chk.guard(_memo_rule, chk, prog)
+    from .. import idkeys
+    chk.guard(idkeys.report, chk, prog, 'C05.R15', 'no object address (builtin id()) outlives the function that took it: none keys a module-level or object-level container, is stored on an object or put into a record',
+              'a worker-side cache of the current input keyed by an address is hit for a later, different input: the simplification is applied to a superseded input and the result adopted')
     extra = None
     if tier == 'thorough':
         from .. import selftest
